@@ -241,7 +241,12 @@ def plan(case, seed_rng, tier):
     if k == "string":
         # async / sandbox differ from default only behind the parser: needed only when a tag can open
         deep = "BS" in case["syms"] or "VS" in case["syms"] or "{" in case["syms"]
+        # pumped strings: the three syntax configurations + one seeded other environment
+        pumped = bool(case.get("muts"))
+        extra = ENV_CONFIGS[3 + seed_rng % 4]
         for envname in ENV_CONFIGS:
+            if pumped and SYNTAX_OF[envname] == "default" and envname not in ("default", extra):
+                continue
             if envname in ("async", "sandbox") and not deep:
                 continue
             exp = "compiles" if SYNTAX_OF[envname] in case["plain"] else "compiles-or-syntax-error"
@@ -251,6 +256,11 @@ def plan(case, seed_rng, tier):
             out.append((envname, PREDICTED[(seed_rng + i) % 3], "compiles"))
         out.append(("default", "alias", "compiles-or-syntax-error"))
         out.append((ENV_CONFIGS[seed_rng % 7], "special", "compiles-or-syntax-error"))
+    elif k == "named":
+        # a special name at some identifier positions (written by the spec); the other identifiers distinct,
+        # and once all equal to one ordinary name
+        out.append(("default", "ascii", "compiles-or-syntax-error"))
+        out.append((ENV_CONFIGS[1 + seed_rng % 6], ("ascii", "alias")[(seed_rng >> 3) % 2], "compiles-or-syntax-error"))
     else:
         out.append(("default", "ascii", "compiles-or-syntax-error"))
         # tokens that are tags of an extension are tried where the extension is loaded
@@ -259,17 +269,28 @@ def plan(case, seed_rng, tier):
     return out
 
 
+# a worker that has seen this many watchdog timeouts stops loading (every one of them is a VIOLATION
+# already; a hang that a whole family of cases runs into would otherwise cost 5 s of CPU per case)
+MAX_TIMEOUTS_PER_WORKER = 2
+
+
 def _work(arg):
     lines, seed, tier = arg
     agg = {}
     n = 0
+    done = 0
     for line in lines:
+        if _W.get("timeouts", 0) >= MAX_TIMEOUTS_PER_WORKER:
+            break
+        done += 1
         case = json.loads(line)
         h = (hash(line) ^ seed) & 0xFFFFFF
         for envname, scheme, expect in plan(case, h, tier):
             src = write_out(case, envname, scheme)
             o = load(envname, src, want_ast=(case["kind"] == "valid" and envname == "default"))
             n += 1
+            if o.get("exc") == "WatchdogTimeout":
+                _W["timeouts"] = _W.get("timeouts", 0) + 1
             o["lines"] = case["lines"]
             o["expect"] = expect
             key = (o["class"], o["lineno"], o["lines"], expect, o.get("exc", ""), o.get("site", ""), o.get("msg", ""),
@@ -281,7 +302,7 @@ def _work(arg):
             if len(a["examples"]) < 3:
                 a["examples"].append({"src": src, "env": envname, "names": scheme, "kind": case["kind"],
                                       "toks": case.get("toks") or case.get("syms"), "muts": case.get("muts", [])})
-    return n, len(lines), agg
+    return n, done, len(lines) - done, agg
 
 
 # --------------------------------------------------------------------------
@@ -376,22 +397,35 @@ def run(ck):
         raise core.MachineryError(f"vacuous: {kinds}")
     if not kinds.get("mutant"):
         raise core.MachineryError("vacuous: no mutants generated")
+    if not kinds.get("named"):
+        raise core.MachineryError("vacuous: no sentences with special names generated")
+    npumped = sum(1 for ln in lines if '"muts":[["pump"' in ln)
+    if not npumped:
+        raise core.MachineryError("vacuous: no pumped strings generated")
+    ck.extra["pumped_strings"] = npumped
 
     agg = {}
     loads = 0
+    skipped = 0
     chunks = [(c, ck.seed, tier) for c in core.chunks(lines, 400)]
     import gc
     gc.freeze()  # keep the collector of the forked workers away from the (large) case list
     with mp.get_context("fork").Pool(min(16, ncpu), initializer=_init_worker, initargs=(legend,)) as pool:
-        for n, ncases, part in pool.imap_unordered(_work, chunks):
+        for n, ncases, nskipped, part in pool.imap_unordered(_work, chunks):
             loads += n
             ck.traces += ncases
+            skipped += nskipped
             for k, v in part.items():
                 a = agg.setdefault(k, {"count": 0, "examples": []})
                 a["count"] += v["count"]
                 a["examples"] = (a["examples"] + v["examples"])[:3]
     ck.evaluations += loads
     ck.extra["real_loads"] = loads
+    if skipped:
+        ck.exhaustive = False
+        ck.extra["cases_not_loaded_after_watchdog_timeouts"] = skipped
+        if not any(k[4] == "WatchdogTimeout" for k in agg):
+            raise core.MachineryError("cases were skipped without a watchdog timeout on record")
 
     verdict = judge(ck, agg.keys())
     classes = {}
